@@ -33,6 +33,15 @@ def run_family(execute: Callable[[Any, List[int]], ExecResult], cases: Iterable[
                 res["replay_divergences"] += 1
                 res["divergent"].append(_json_safe({"params": case}))
             first = False
+    # one witness per (clause, key) and family: a defect that shows in thousands of cases must not crowd
+    # other violations out of the framework's bounded violation list
+    seen = set()
+    unique = []
+    for v in res["violations"]:
+        if (v["clause"], v["key"]) not in seen:
+            seen.add((v["clause"], v["key"]))
+            unique.append(v)
+    res["violations"] = unique
     return res
 
 
